@@ -143,6 +143,31 @@ def no_err_after_write(chk, m, S, flavour):
     return roles
 
 
+def rn_size(chk, m, flavour):
+    """R-RN-SIZE: in crypt_rn every path to the worker carries facts that bound the signed `size` argument from below by
+    sizeof(struct crypt_data); a negative size (huge when converted) or a too-small one must have returned ERANGE before"""
+    from . import c14
+    F = common.sym(m, "crypt_rn")
+    st = m.structs.get("struct.crypt_data")
+    need = st["size"] if st else 32768
+    size_id = F.params[3]["id"]
+    sym = F.vname(size_id)
+    pf = ir.PathFinder(F)
+    calls = [c for c in F.calls() if (c.callee or "").endswith("do_crypt")]
+    if not calls:
+        raise AnalysisBroken("crypt_rn does not call do_crypt any more")
+    for c in calls:
+        stt = pf.dominating_facts(c.block)
+        lits = [ir.atom_str(F, a, stt) for a in stt.facts]
+        lo, hi = c14.int_bounds(lits, sym)
+        inst = "%s:crypt_rn->do_crypt@%d" % (flavour, c.line)
+        if lo >= need:
+            chk.ok("R-RN-SIZE", inst, sample={"size_lower_bound": lo, "facts": ["%s %s %s" % (a, p, b) for p, a, b in lits][:4]})
+        else:
+            chk.fail("R-RN-SIZE", inst, "crypt_rn reaches do_crypt with size possibly as small as %d (struct crypt_data needs %d): a negative or too-small size is not refused with ERANGE (facts on the way: %s)" % (
+                lo, need, ["%s %s %s" % (a, p, b) for p, a, b in lits][:4]), "lib/crypt.c:%d" % c.line)
+
+
 def no_write_after_err(chk, m, S, flavour, roles=None):
     """mirror image: once a function has stored a failure code into errno itself, no path may still reach a write into
     the result buffer (the result would overwrite the failure token while the call reports failure, or the reverse)"""
@@ -489,6 +514,7 @@ def run(chk, tier):
                  ("R-FILTER-SPEC", "check_badsalt_chars == documented reject set (256 abstract evaluations + position cells)"),
                  ("R-NULL-IFF-STAR", "crypt_rn/crypt_ra return NULL iff output[0]=='*'"),
                  ("R-NO-WRITE-AFTER-ERR", "once a function has stored a failure code into errno itself, no path still reaches a write into the result buffer"),
+                 ("R-RN-SIZE", "crypt_rn reaches the worker only with size >= sizeof(struct crypt_data) as a signed number"),
                  ("X-TOKEN", "make_failure_token over all sizes and setting heads")):
         chk.rule(r, d)
     for flavour in ("shared", "static"):
@@ -497,6 +523,7 @@ def run(chk, tier):
         token_first(chk, m, flavour)
         roles = no_err_after_write(chk, m, S, flavour)
         no_write_after_err(chk, m, S, flavour, roles)
+        rn_size(chk, m, flavour)
         vals = err_set(chk, m, S, flavour, roles)
         lits = filter_dom(chk, m, flavour)
         null_iff_star(chk, m, flavour)
